@@ -900,6 +900,12 @@ func checkC20Restore(p *Prog, r *Report, ru *Rule) {
 							continue
 						}
 					}
+					/* The default arm of a switch which has a case for
+					every constant the module declares of the value's
+					(module) type: reached by no value the program has. */
+					if exhaustiveDefault(p, fn, i) {
+						continue
+					}
 					nExit++
 					ru.Bad(fnName(fn)+":panic", posOf(i), "explicit panic in the program: the terminal is left in raw mode and a stack trace is shown")
 					continue
@@ -1520,4 +1526,71 @@ func flagGuardedBy(fn *ssa.Function, isCleanupCall func(ssa.Instruction) bool, s
 		_ = nok
 	})
 	return ok
+}
+
+// exhaustiveDefault: the instruction at stands below the "equals none of
+// them" edges of comparisons of one value, of a named type of the module,
+// with constants, and those constants are all the package-level constants the
+// module declares of that type (at least two): the default arm of an
+// exhaustive switch over an enumeration.
+func exhaustiveDefault(p *Prog, fn *ssa.Function, at ssa.Instruction) bool {
+	tested := map[ssa.Value]map[string]bool{}
+	for _, b := range fn.Blocks {
+		ifi := blockIf(b)
+		if nil == ifi {
+			continue
+		}
+		dc := decodeCond(ifi.Cond)
+		if nil == dc.Y {
+			continue
+		}
+		v, c := dc.X, dc.Y
+		if _, isC := v.(*ssa.Const); isC {
+			v, c = c, v
+		}
+		cc, isC := c.(*ssa.Const)
+		if !isC || nil == cc.Value {
+			continue
+		}
+		n, isNamed := v.Type().(*types.Named)
+		if !isNamed || nil == n.Obj().Pkg() || !strings.HasPrefix(n.Obj().Pkg().Path(), ModPath) {
+			continue
+		}
+		ne := 1 /* the edge on which v differs from the constant */
+		if !dc.Eq {
+			ne = 0
+		}
+		if !edgeDominates(ifi, ne, at) {
+			continue
+		}
+		if nil == tested[v] {
+			tested[v] = map[string]bool{}
+		}
+		tested[v][cc.Value.ExactString()] = true
+	}
+	for v, seen := range tested {
+		n := v.Type().(*types.Named)
+		var declared []string
+		for _, pk := range p.Pkgs {
+			sc := pk.Types.Scope()
+			for _, name := range sc.Names() {
+				if k, ok := sc.Lookup(name).(*types.Const); ok && types.Identical(k.Type(), n) {
+					declared = append(declared, k.Val().ExactString())
+				}
+			}
+		}
+		if len(declared) < 2 {
+			continue
+		}
+		all := true
+		for _, d := range declared {
+			if !seen[d] {
+				all = false
+			}
+		}
+		if all {
+			return true
+		}
+	}
+	return false
 }
